@@ -54,7 +54,7 @@ func pmtSectionOf(streams []Val) []byte {
 func descsOf(l []Val) []psi.PmtDescriptor {
 	var ds []psi.PmtDescriptor
 	for _, d := range l {
-		ds = append(ds, psi.NewPmtDescriptor(uint8(d.L[0].Int()), exact(d.L[1].B)))
+		ds = append(ds, maybeForeignPmtDesc(psi.NewPmtDescriptor(uint8(d.L[0].Int()), exact(d.L[1].B))))
 	}
 	return ds
 }
@@ -101,7 +101,9 @@ func init() {
 			guarded(func() Val { return VOk(VBool(d.IsDolbyATMOS())) }))
 	})
 	register("st.esq", func(a []Val) Val {
-		es := psi.NewPmtElementaryStream(0x1B, 0x101, descsOf(a[0].L))
-		return VL(guarded(func() Val { return VOk(VU(es.MaxBitRate())) }), VBool(es.IsTTMLSubtitling()))
+		return foreignTwin("st.esq (an elementary stream over caller-written PmtDescriptor values)", func() Val {
+			es := psi.NewPmtElementaryStream(0x1B, 0x101, descsOf(a[0].L))
+			return VL(guarded(func() Val { return VOk(VU(es.MaxBitRate())) }), VBool(es.IsTTMLSubtitling()))
+		})
 	})
 }
